@@ -1180,7 +1180,6 @@ func c05(r *core.Run) {
 		o.Site(n)
 	})
 
-
 	r.Check("D5/K6/repr-float-precision", "the YAML→JSON bridge renders numbers through lang.Repr: a float64 is formatted with bitSize 64 and a float32 with bitSize 32 (formatting a float64 at 32 bits rounds YAML floats that JSON keeps exact)", func(o *core.O) {
 		n := 0
 		for _, f := range p.PkgFuncs("lib/lang") {
